@@ -113,9 +113,128 @@ theorem C15_drop_on_close (ops after : List Op) (hafter : ∀ op ∈ after, op.i
   have hd : Dropped U := dropped_after_close ops after hafter u
   exact ⟨hd.1, by simp [User.flagsOf, hd.1], by simp [User.stateOf, hd.1], hd.2.2.2.1, hd.2.1⟩
 
+/-- **The wire mirrors the reasons.** In every reachable state the last AddUser/RemoveUser attempt made for a
+user is an AddUser exactly when the reasons the worker holds for that user are non-empty (nothing was ever
+attempted, or the last attempt was a RemoveUser, exactly when they are empty). -/
+theorem C15_wire_mirrors (ops : List Op) (u : Nat) :
+    let U := (run State.init ops).users u
+    U.frames.getLast? = some .addUser ↔ U.flagsOf ≠ Flags.empty :=
+  wire_of_inv (inv_reach ops u)
+
+/-! ### Session loss and re-derivation: the owners of the reasons (`World`, `WOp` in `Model/Track.lean`)
+
+World histories `wops : List WOp` interleave, in any order: everything above (`.base op`: application calls,
+worker steps, timers, the clock, **server closes**), logins, management cycles of the transfer manager, changes
+of the friends list and of the transfers (add / finish / queue again / remove). The only hypothesis is
+`appOk`: the application itself only ever names REQUESTED (FRIEND and TRANSFER belong to their owners).
+`reasons s u` is `R_u`: the fold of every request made for u since the last close. -/
+
+/-- every world history is a history of the tracking manager: all theorems above hold in the world -/
+theorem C15_world_is_history (wops : List WOp) :
+    ∃ ops, (wrun World.init wops).t = run State.init ops :=
+  wrun_is_run wops
+
+/-- **TRANSFER = "has an unfinished transfer".** After a management cycle — until the transfers change or
+the server connection closes — the TRANSFER reason of *every* user is set exactly when the user has an
+unfinished transfer; and at all times a user without any transfer does not carry it (needs
+`fixes/C15-transfer-reason-kept-after-remove.patch`). A close clears `cycleRan`: the reason is gone with
+everything else and is back after the next cycle, whatever happened in between. -/
+theorem C15_transfer_reason (wops : List WOp) (hops : ∀ op ∈ wops, op.appOk = true) (u : Nat) :
+    let w := wrun World.init wops
+    (w.cycleRan = true → (reasons w.t u).tr = decide (w.HasUnfinished u)) ∧
+    (¬ w.HasXfer u → (reasons w.t u).tr = false) :=
+  ⟨fun h => (winv_reach wops hops).trSync h u, (winv_reach wops hops).trNone u⟩
+
+/-- **FRIEND = "a session exists and the name is in the friends list"**, at all times, for every user other
+than the own name — in particular again after every login that follows a close. -/
+theorem C15_friend_reason (wops : List WOp) (hops : ∀ op ∈ wops, op.appOk = true) (u : Nat) (hu : u ≠ me) :
+    let w := wrun World.init wops
+    (reasons w.t u).fr = (w.session && decide (u ∈ w.friends)) := by
+  intro w
+  cases hs : w.session
+  · simpa using (winv_reach wops hops).frOff hs u hu
+  · simpa using (winv_reach wops hops).frOn hs u hu
+
+/-- the owners (login, cycle, friends list, transfers) never touch REQUESTED: it is the fold of the
+application's own calls since the last close -/
+theorem C15_owners_leave_requested (w : World) (op : WOp) (hop : ∀ b, op ≠ .base b) (u : Nat) :
+    (reasons (wstep w op).t u).req = (reasons w.t u).req :=
+  req_owner_step w op hop u
+
+/-- **What is observable mirrors what can be observed.** In any world state with a session in which a cycle ran
+after the last change of the transfers, a user (other than the own name) whose worker has caught up
+(`queue = []`) reports exactly these reasons: REQUESTED as the application left it, TRANSFER iff an
+unfinished transfer exists, FRIEND iff in the friends list — and the last request made to the server for that
+user is an AddUser exactly when one of the three stands. -/
+theorem C15_session_mirror (wops : List WOp) (hops : ∀ op ∈ wops, op.appOk = true) (u : Nat) (hu : u ≠ me) :
+    let w := wrun World.init wops
+    let U := w.t.users u
+    w.session = true → w.cycleRan = true → U.queue = [] →
+      U.flagsOf = ⟨(reasons w.t u).req, decide (w.HasUnfinished u), decide (u ∈ w.friends)⟩ ∧
+      (U.frames.getLast? = some .addUser ↔
+        ((reasons w.t u).req = true ∨ w.HasUnfinished u ∨ u ∈ w.friends)) := by
+  intro w U hs hc hq
+  obtain ⟨ops, hops'⟩ := wrun_is_run wops
+  have hinv : UInv (run State.init ops).now ((run State.init ops).users u) := inv_reach ops u
+  have hU : U = (run State.init ops).users u := by show w.t.users u = _; rw [hops']
+  rw [← hU] at hinv
+  have hfl : U.flagsOf = reasons w.t u := ((edges_of_inv hinv).2.2 hq).2
+  have htr := (winv_reach wops hops).trSync hc u
+  have hfr := (winv_reach wops hops).frOn hs u hu
+  have hfl' : U.flagsOf = ⟨(reasons w.t u).req, decide (w.HasUnfinished u), decide (u ∈ w.friends)⟩ := by
+    rw [hfl, ← htr, ← hfr]
+  refine ⟨hfl', ?_⟩
+  rw [wire_of_inv hinv, hfl', Flags.ne_empty_iff]
+  simp
+
+/-- **After the next session every still-standing reason is tracked again.** From any reachable world state:
+the server connection closes (everything is dropped, `C15_drop_on_close`), the client logs in again and the
+transfer manager runs its next cycle. Then the requests made in the new session amount, for every user other
+than the own name, to exactly: no REQUESTED (the application has to ask again), TRANSFER iff the user still has
+an unfinished transfer, FRIEND iff the name is still in the friends list — transfers and friends list are
+untouched by the loss. -/
+theorem C15_rederived_after_session_loss (wops : List WOp) (hops : ∀ op ∈ wops, op.appOk = true)
+    (u : Nat) (hu : u ≠ me) :
+    let w := wrun World.init wops
+    let w' := wrun w [.base .serverClosed, .login, .cycle]
+    w'.xfers = w.xfers ∧ w'.friends = w.friends ∧ w'.session = true ∧
+    reasons w'.t u = ⟨false, decide (w.HasUnfinished u), decide (u ∈ w.friends)⟩ := by
+  intro w w'
+  have hops' : ∀ op ∈ wops ++ [.base .serverClosed, .login, .cycle], op.appOk = true := by
+    intro op hop
+    rcases List.mem_append.mp hop with h | h
+    · exact hops op h
+    · simp at h; rcases h with h | h | h <;> subst h <;> rfl
+  have hw' : w' = wrun World.init (wops ++ [.base .serverClosed, .login, .cycle]) := by
+    show wrun (wrun World.init wops) _ = _; rw [wrun_append]
+  have hinv : WInv w' := hw' ▸ winv_reach _ hops'
+  have hx : w'.xfers = w.xfers := rfl
+  have hf : w'.friends = w.friends := rfl
+  have hs : w'.session = true := rfl
+  have hc : w'.cycleRan = true := rfl
+  refine ⟨hx, hf, hs, ?_⟩
+  have htr := hinv.trSync hc u
+  have hfr := hinv.frOn hs u hu
+  have hreq : (reasons w'.t u).req = false := by
+    have h1 : (reasons w'.t u).req = (reasons (wstep (wstep w (.base .serverClosed)) .login).t u).req :=
+      req_owner_step _ .cycle (by intro b h; cases h) u
+    have h2 : (reasons (wstep (wstep w (.base .serverClosed)) .login).t u).req
+        = (reasons (wstep w (.base .serverClosed)).t u).req :=
+      req_owner_step _ .login (by intro b h; cases h) u
+    rw [h1, h2]
+    show (reasons (step w.t .serverClosed) u).req = false
+    rw [reasons_closed]; rfl
+  have hU : w'.HasUnfinished u ↔ w.HasUnfinished u := Iff.rfl
+  cases hr : reasons w'.t u with
+  | mk a b c =>
+    rw [hr] at htr hfr hreq
+    simp only at htr hfr hreq
+    subst hreq
+    rw [htr, hfr]
+    simp [hf, World.HasUnfinished, hx]
+
 /-! ### Non-vacuity: reachable states that meet the hypotheses -/
 
-def fReq : Flags := ⟨true, false, false⟩
 def fFriend : Flags := ⟨false, false, true⟩
 
 /-- track → AddUser sent → exists: tracked and quiescent -/
@@ -143,5 +262,33 @@ example :
 /-- calls with a reason satisfy `flagOk`; a close is not a call -/
 example : ∀ op ∈ [Op.track 0 fReq, .untrack 1 fFriend, .serverClosed, .advance 3], op.flagOk = true := by decide
 example : ∀ op ∈ [Op.workerStep 0 .sendOk, .retryFires 1, .reap 0 0, .serverClosed], op.isCall = false := by decide
+
+
+/-- a world history with a session loss in the middle: bob (0) has an unfinished download and is a friend,
+user 1 is explicitly requested. After close + login + cycle (and the workers catching up) bob is asked for again
+with TRANSFER and FRIEND, user 1 is not (the application has to ask again) -/
+def lossHistory : List WOp :=
+  [.friend 0 true, .tadd 0, .login, .cycle, .base (.track 1 fReq),
+   .base (.workerStep 0 .sendOk), .base (.workerStep 0 .sendOk), .base (.workerStep 0 .exists),
+   .base (.workerStep 0 .sendOk), .base (.workerStep 1 .sendOk),
+   .base .serverClosed, .login, .cycle,
+   .base (.workerStep 0 .sendOk), .base (.workerStep 0 .sendOk), .base (.workerStep 0 .exists),
+   .base (.workerStep 0 .sendOk)]
+
+example : ∀ op ∈ lossHistory, op.appOk = true := by decide
+
+example :
+    let w := wrun World.init lossHistory
+    w.session = true ∧ w.cycleRan = true ∧ (w.t.users 0).queue = [] ∧ w.HasUnfinished 0 ∧ 0 ∈ w.friends ∧
+    (w.t.users 0).flagsOf = ⟨false, true, true⟩ ∧ (w.t.users 0).frames = [.addUser] ∧
+    (w.t.users 0).stateOf = .tracked ∧ (w.t.users 1).flagsOf = Flags.empty ∧ (w.t.users 1).frames = [] := by
+  decide
+
+/-- removing the last transfer of a user withdraws TRANSFER (RemoveUser follows) -/
+example :
+    let w := wrun World.init [.tadd 0, .cycle, .base (.workerStep 0 .sendOk), .base (.workerStep 0 .sendOk),
+      .base (.workerStep 0 .exists), .trm 0, .base (.workerStep 0 .sendOk)]
+    ¬ w.HasXfer 0 ∧ (w.t.users 0).frames = [.addUser, .removeUser] := by
+  decide
 
 end AioslskVerif.C15
